@@ -1,5 +1,6 @@
 use crate::define::Result;
 use crate::error::Error;
+use crate::operator::decimal_calc;
 use crate::value::Value;
 use once_cell::sync::OnceCell;
 use rust_decimal::Decimal;
@@ -30,7 +31,7 @@ impl InnerFunctionManager {
                         min = Some(num);
                     }
                 }
-                Ok(Value::Number(min.unwrap()))
+                Ok(Value::Number(min.ok_or(Error::ParamInvalid())?))
             }),
         );
 
@@ -44,7 +45,7 @@ impl InnerFunctionManager {
                         max = Some(num);
                     }
                 }
-                Ok(Value::Number(max.unwrap()))
+                Ok(Value::Number(max.ok_or(Error::ParamInvalid())?))
             }),
         );
 
@@ -53,7 +54,7 @@ impl InnerFunctionManager {
             Arc::new(|params| {
                 let mut ans = Decimal::ZERO;
                 for param in params.into_iter() {
-                    ans += param.decimal()?;
+                    ans = decimal_calc("+", ans, param.decimal()?)?;
                 }
                 Ok(Value::Number(ans))
             }),
@@ -64,7 +65,7 @@ impl InnerFunctionManager {
             Arc::new(|params| {
                 let mut ans = Decimal::ONE;
                 for param in params.into_iter() {
-                    ans *= param.decimal()?;
+                    ans = decimal_calc("*", ans, param.decimal()?)?;
                 }
                 Ok(Value::Number(ans))
             }),
